@@ -80,6 +80,7 @@ fn hand_cases() -> Vec<(&'static str, u32, Vec<String>)> {
         ("true children of an and are dropped, childless and stays", 1, ls("o 1 0 / a 2 0 / t 3 0 / 2 3 0 / 2 3 0 / 1 2 1 0 / 1 3 -1 0")),
         ("false child listed after a true child of an and", 1, ls("o 1 0 / a 2 0 / t 3 0 / f 4 0 / 2 4 0 / 2 3 0 / 1 2 1 0 / 1 3 -1 0")),
         ("Props example: smoothing, free feature 5, false edge, shared node 2", 5, ls("o 1 0 / o 2 0 / t 3 0 / f 4 0 / 2 3 2 0 / 2 3 -2 3 0 / 1 2 1 0 / 1 2 -1 4 0 / 1 4 -1 -4 0")),
+        ("feature mentioned only in a dead branch (C01_d4_loader_wf_refuted): neither free nor kept", 2, ls("o 1 0 / a 2 0 / f 3 0 / t 4 0 / 2 3 0 / 1 2 1 2 0 / 1 4 -1 0")),
         ("declared ids are ignored, only the position counts", 1, ls("o 7 0 / t 7 0 / 1 2 1 0 / 1 2 -1 0")),
         ("edge to a declared id that is not a position", 1, ls("o 1 0 / t 3 0 / 1 3 1 0")),
         ("dead and below an or and below a live and", 2, ls("o 1 0 / a 2 0 / a 3 0 / f 4 0 / t 5 0 / 3 4 0 / 2 3 0 / 2 5 0 / 1 2 1 0 / 1 3 -1 2 0 / 1 5 -1 -2 0")),
